@@ -10,5 +10,5 @@ reg(Check(
     ],
     modelled=["match/match.go: AddQuery and its removal closure, removeQuery pruning, Update, UpdateOnce, branch.update; subscribe/subscribe.go: UpdateNotification, Server.Update, addSubscription (incl. Go slice/append semantics of the captured query; the pre-fix variants are kept as _gen false); path.ToStrings / CompletePath via Path/PathModel.v; ctree Add/Query via CTree/CTreeModel.v for the snapshot side"],
 ),
-    level_text="Theorems in coq/Props/C06.v state the property over the Gallina model of the subscription trie and of subscribe's UpdateNotification/addSubscription for all registration/removal histories and all paths (offered iff compatible, containment of ctree.Query's relation, at most one offer per notification, nothing after removal -- also for every interleaving of concurrent Update / removal / AddQuery calls under the lock discipline of Match.mu --, other clients unaffected, pruning); the model is tied to match/match.go and subscribe/subscribe.go by a correspondence run (every query/update pair to length 4 over {a,b,*}, two-query tries to length 3, seeded subscribe-level, concurrent (removal closures called from inside a client callback) and mixed sequences) evaluated inside Coq, which also applies the set-of-registrations specification to the implementation's own observations.",
+    level_text="Theorems in coq/Props/C06.v state the property over the Gallina model of the subscription trie and of subscribe's UpdateNotification/addSubscription for all registration/removal histories and all paths (offered iff compatible, containment of ctree.Query's relation, at most one offer per notification, nothing after removal -- also for every interleaving of concurrent Update / removal / AddQuery calls under the lock discipline of Match.mu --, other clients unaffected, pruning); the model is tied to match/match.go and subscribe/subscribe.go by a correspondence run (every query/update pair to length 4 over {a,b,*}, two-query tries to length 3, seeded subscribe-level, concurrent (removal closures called from inside a client callback; registration racing another subscriber's registration/removal on a shared prefix) and mixed sequences) evaluated inside Coq, which also applies the set-of-registrations specification to the implementation's own observations.",
     level_note="Trusted: Coq kernel + vm_compute, the hand-written model (validated only on the explored cases), the Go harness projection (offers counted through the real coalescing queue as 1 + duplicates). sync.RWMutex trusted.")
